@@ -5,7 +5,7 @@ from harness.rngshim import Tape, install
 from runner import Case, CaseSet
 
 ID = 'C17'
-OBLIGATIONS = ['Props/C17.v', 'Props/Tie/moves_tie.v', 'Props/Tie/charge_tie.v']
+OBLIGATIONS = ['Props/C17.v', 'Props/Tie/moves_tie.v', 'Props/Tie/charge_tie.v', 'Props/Tie/minipy_moves_tie.v']
 RULE = ('parents: random class sequences (N 4..30) and degenerate ones (no charge, one charge type, all/all-but-one frozen) x '
         'frozen sets (empty, random, prefix, everything; handed over as sets of Python ints, of numpy ints, or lists) x chains of 1..8 moves drawn from {swapRes, swapRandChargeRes, full_shuffle, '
         'get_shuffled_sequence, get_permutant, permute_block_swap, permute_cluster_charges} with kappa() queries at random points '
@@ -18,8 +18,14 @@ LEVEL_TEXT = ('Proof: every move is an index rearrangement (one device, fill2) â
               'of the random choices; positions outside the exchanged index sets keep their residue (so frozen positions are fixed by '
               'swapRandChargeRes and full_shuffle); the child\'s charge pattern is that of its sequence (also for swapRes, which swaps the '
               'two entries) and the carried delta-max equals that of a fresh object (composition-only); chains by induction. '
-              'block swap / clustering ignoring frozen is refuted on the model (D9, known finding).')
+              'block swap / clustering ignoring frozen is refuted on the model (D9, known finding). '
+              'Whole-function ties (minipy_moves_tie.v): the translated source of the constructor core, swapRes, full_shuffle and '
+              'swapRandChargeRes, run by the MiniPy interpreter with the random draws as oracles indexed by call site, returns exactly '
+              'the model\'s object for EVERY parent, index pair, frozen list and oracle outcome the model accepts '
+              '(swapRandChargeRes calls the translated swapRes; every child is built by running the translated constructor).')
 LEVEL_NOTE = 'Closed under the global context. Mersenne twister / time seeding replaced by the tape.'
+LEVEL_NOTE_MINIPY = (' Whole-function ties: Sequence.__init__ (core), swapRes, full_shuffle, swapRandChargeRes are translated into Core/MiniPy.v terms on every run; '
+                     'the random generator is an oracle indexed by call site (hypotheses of the tie theorems state what it returned).')
 TECHNIQUE = 'Coq proof (generic permutation lemma for stack-filling rearrangements) + tape-driven in-Coq correspondence of move chains'
 
 IMPORTS = ('From Coq Require Import List ZArith QArith String.\n'
